@@ -77,6 +77,17 @@ CLAIMS = {
              "with the real AES primitives are outside what was discharged within the caps (harnesses exist in tier 'dev').",
         design_ref="DESIGN.md §5 C05, §11",
     ),
+    "C06": dict(
+        text="Bounded model checking of the validated-path accessor: for EVERY name of length 2 and 3 (4 in thorough, split on "
+             "the first byte) over the path-relevant byte classes {ordinary byte, '.', '/', '\\', NUL} - 25, 125 and 625 names, "
+             "each family in one query over the real enclosed_name and the real std::path::Components iterator - the result is "
+             "Some exactly when an independent lexical walk over the bytes says the name is relative, NUL-free and never climbs "
+             "above its starting directory, and then the returned path is the name unchanged.",
+        note=TRUST + "mangled_name (file_name_sanitized) is NOT covered: its String::replace / PathBuf::push allocations have symbolic "
+             "sizes and exhausted 25 GB already for 1-byte names (harnesses kept in tier 'dev'); names longer than 4 bytes and "
+             "non-Unix path semantics are outside the bound. This is a weak bound and is reported as such.",
+        design_ref="DESIGN.md §5 C06, §11",
+    ),
     "C08": dict(
         text="Bounded model checking at the exact 32-bit boundaries with fully symbolic 64-bit values (the solver chooses "
              "0xFFFFFFFE/FF/1_0000_0000 itself): central header writer -> strict APPNOTE ZIP64 decoding recovers "
@@ -191,6 +202,16 @@ CLAIMS = {
         design_ref="DESIGN.md §5 C19",
     ),
 }
+CLAIMS["C20"] = dict(
+    text="Bounded model checking of the single-threaded half only: two handles (ZipArchive::clone) on an archive state with "
+         "prepended data and symbolic payload bytes; handle A opens an entry and reads part of it, the clone opens the same "
+         "entry (data start already cached in the shared metadata) and reads, A resumes: each handle observes exactly the bytes "
+         "and data_start() it would observe alone, for all payload values.",
+    note=TRUST + "NOT covered and not coverable by this technique: concurrent use from several OS threads and Send/Sync (Kani does not "
+         "model threads; Send/Sync is a type-checker fact). One interleaving script of 2 opens and 3 reads; the archive state is "
+         "constructed (what ZipArchive::new produces is shown by the C03 harnesses).",
+    design_ref="DESIGN.md §5 C20, §11",
+)
 for _c in CLAIMS.values():
     _c.setdefault("technique", TECH)
 
@@ -198,11 +219,9 @@ PENDING = "solver-based harnesses exist (tier 'dev' in /verif/harness) but are n
 
 # property -> reason (for properties not claimed)
 NOT_APPLICABLE = {
-    "C06": PENDING + " (std::path component iteration dominates the query)",
     "C07": "file-system effects of extract() are syscalls behind FFI with no encodable model; the reduced path-confinement harness under fs stubs is not yet discharged; see DESIGN.md §5 C07",
     "C10": PENDING + " (only the refusal of encrypted/data-descriptor entries is discharged, registered under C05)",
     "C14": PENDING,
-    "C20": "concurrent use from several threads and Send/Sync are not solver queries (Kani does not model threads; Send/Sync is decided by the type checker); the single-threaded interleaving harness is not built yet; see DESIGN.md §5 C20",
 }
 
 ASSUME = {}
@@ -212,6 +231,7 @@ OUTSIDE = {
     "C03": "by_name and duplicate names, > 1 entry on the ZipArchive::new path, compressed payloads, junk prefixes > 2 bytes on the open path (the search loop itself is covered over every 24/28-byte input), CPython-produced archives",
     "C04": "streams longer than 3 bytes; the decoders themselves; the streaming reader's gate (same type, generic harness applies)",
     "C05": "inputs larger than the stated buffers, peak-heap bound, new_append, by_name, streaming reader over fully hostile headers, real AES primitives",
+    "C06": "mangled_name / file_name_sanitized (not discharged), names > 4 bytes, Unicode beyond the five byte classes, Windows path semantics",
     "C08": "entry-count thresholds (65534..65537 entries), multi-GiB real payloads (sizes are constructed symbolically), the 4 GiB write guard",
     "C09": "ZipCrypto and AES readers, short-write sinks, decoders' own buffering, streaming reader",
     "C11": "faults on the read side (open/read/append), several faults, Interrupted/WouldBlock semantics, scenarios with extra data / encryption / raw copy",
@@ -220,6 +240,7 @@ OUTSIDE = {
     "C17": "start_file_aligned (alignment half), extra data > 9 bytes, local-and-central split with non-empty local part (dev)",
     "C15": "passwords > 3 bytes in derive (the per-byte step is proven for every state, so longer passwords follow by induction), compressing methods under encryption",
     "C16": "cryptographic strength, real PBKDF2/HMAC/AES equivalence to the standards, tamper detection, MAC state machine",
+    "C20": "multi-threaded use, Send/Sync, longer interleaving scripts, more than two handles",
     "C18": "nothing inside DateTime; the archive-level round trip of timestamps is part of C01/C02",
     "C19": "names/comments longer than 3 bytes, file comments",
 }
